@@ -13,7 +13,10 @@ use std::cell::Cell;
 use std::hash::{BuildHasher, Hash};
 use std::sync::Arc;
 use std::sync::atomic::Ordering;
+#[cfg(not(excsn_fibre_verif))]
 use std::thread;
+#[cfg(excsn_fibre_verif)]
+use fibre_verif_rt::thread;
 use std::time::Duration;
 
 use ahash::{HashMap, HashMapExt};
